@@ -122,12 +122,33 @@ def db2_two_words(text, e):
     return re.search(r"CURRENT\s*(DATE|TIME)", ctxt, re.I) is not None and e[0] in ("layout", "case")
 
 
+CHAIN_LINKS = ["LIKE 'x%'", "NOT LIKE 'x'", "RLIKE 'r'", "NOT RLIKE 'r'", "REGEXP '1'", "NOT REGEXP '1'", "IN (1, 2)", "NOT IN (3)", "IS NULL", "IS NOT NULL", "IS TRUE",
+               "BETWEEN 1 AND 2", "NOT BETWEEN 1 AND 2", "IN (SELECT 1)", "like b", "regexp b", "is not true"]
+CHAIN_HOSTS = ["SELECT {P} FROM t", "SELECT a FROM t WHERE {P}", "SELECT a FROM t JOIN u ON {P}", "SELECT a FROM t GROUP BY a HAVING {P}", "UPDATE t SET a = 1 WHERE {P}",
+               "SELECT CASE WHEN {P} THEN 1 END FROM t", "DELETE FROM t WHERE {P} AND c = 1", "SELECT f({P}) AS al FROM t"]
+
+
+def chain_pairs(r, quick):
+    """chains of keyword predicates: the finished predicate `a <link 1>` as left operand of `<link 2>` (and of a third link), written without brackets and with the
+    redundant brackets around the left operand — every ordered pair of links (each link kind first and later, plain and negated) at a drawn host; thorough: at every host,
+    plus triples (seeded C09-12: one keyword missing from the continuation test only)"""
+    out = []
+    for l1 in CHAIN_LINKS:
+        for l2 in CHAIN_LINKS:
+            for h in ([r.choice(CHAIN_HOSTS)] if quick else CHAIN_HOSTS):
+                out.append((h.replace("{P}", "a %s %s" % (l1, l2)), h.replace("{P}", "(a %s) %s" % (l1, l2))))
+            if not quick or r.chance(0.2):
+                l3, h = r.choice(CHAIN_LINKS), r.choice(CHAIN_HOSTS)
+                out.append((h.replace("{P}", "a %s %s %s" % (l1, l2, l3)), h.replace("{P}", "((a %s) %s) %s" % (l1, l2, l3))))
+    return out
+
+
 def run(ctx):
     n = 3000 if ctx.quick else 80000
     kinds = ["case", "spelling", "noise-words", "quoting", "parentheses", "layout"]
     ctx.cov["rule"] = ("valid generated queries and data-change statements, each rewritten by a random subset of single surface edits of the kinds %s at eligible positions "
                        "outside quoted text; correspondence on base and variant; oracle: base and variant give equal trees, or are both rejected; a failing pair is shrunk to "
-                       "the smallest set of edits. distinct_nontrivial = distinct accepted base trees" % kinds)
+                       "the smallest set of edits; plus every ordered pair of %d keyword-predicate links (LIKE / RLIKE / REGEXP / IN / IS / BETWEEN, plain and negated) chained without brackets against the same chain with redundant brackets around the left operand, at %d hosts. distinct_nontrivial = distinct accepted base trees" % (kinds, len(CHAIN_LINKS), len(CHAIN_HOSTS)))
     r = ctx.rng.fork("c09")
     pairs = []
     for d, t in pfam.regression_cases("C09"):
@@ -185,6 +206,18 @@ def run(ctx):
             a2 = E.run_impl([pfam.req_parse(w["dialect"], w["input"]), pfam.req_parse(w["dialect"], w["variant"])])
             if differs(a2[0], a2[1]):
                 ctx.report_known(f)
+    # chains of keyword predicates with and without the redundant brackets around the left operand
+    ch = chain_pairs(r.fork("chains"), ctx.quick)
+    chd = [r.choice(pfam.MAIN_DIALECTS) for _ in ch]
+    ca, _ = ctx.corr([pfam.req_parse(d, x) for d, (x, _) in zip(chd, ch)], stream="chain-plain")
+    cb, _ = ctx.corr([pfam.req_parse(d, y) for d, (_, y) in zip(chd, ch)], stream="chain-bracketed")
+    for d, (x, y), (_, xa, _), (_, xb, _) in zip(chd, ch, ca, cb):
+        bad = differs(xa, xb)
+        ctx.count("chain:" + ("DIFFERENT" if bad else "equal-trees" if xa.startswith("OK") else "both-rejected"))
+        if bad:
+            pfam.report(ctx, "differs:parentheses", {"kind": "input", "entry": "parse_statements", "dialect": d, "input": x, "variant": y, "edits": [["parentheses", "left operand of a keyword predicate", "(…)"]],
+                                                     "observed": [xa[:300], xb[:300]], "oracle": "c09: redundant brackets around the left operand of a keyword predicate must not change the tree",
+                                                     "how_found": "stream chains of keyword predicates"})
     for p_ in pairs[:4]:
         ctx.sample({"dialect": p_[0], "base": p_[1][:160], "variant": apply(p_[1], p_[2])[:160], "edits": sorted(set(e[0] for e in p_[2]))})
     pfam.conclude(ctx)
